@@ -34,7 +34,7 @@ def run(chk):
         if not ok2:
             raise RuntimeError("harness does not build even without hooks: " + blog2[-600:])
     else:
-        dis, stats, sample = bufcorr.run(chk, binp, 900 if thorough else 300, tag="c15buf", seed_offset=15)
+        dis, stats, sample = bufcorr.run(chk, binp, 3000 if thorough else 300, tag="c15buf", seed_offset=15)
         chk.note("buffer_correspondence", stats)
         chk.add_eval(stats["steps"], stats["steps_followed_by_model"])
         # known class probe
@@ -48,7 +48,7 @@ def run(chk):
                 fails.append({"kind": "level-changes-glyphs (feature range splits a grapheme)", "detail": out})
         elif m:
             chk.note("known_class_stale", "feature_range_splits_grapheme no longer reproduces")
-    fl, summary, crashed = e2e.run(chk, binp, "C15", 30000 if thorough else 4000)
+    fl, summary, crashed = e2e.run(chk, binp, "C15", 300000 if thorough else 4000)
     chk.note("search", summary)
     chk.add_eval(summary.get("evaluations", 0), summary.get("nontrivial", 0))
     if crashed:
